@@ -147,6 +147,7 @@ type World struct {
 	sites       []CensusSite
 	defaultMux  []string           // patterns registered on http.DefaultServeMux (http.Handle*, pprof, expvar)
 	defaultMuxServed []string      // positions of calls that serve http.DefaultServeMux
+	hookFiles   int                // zz_verif_*.go files under //go:build verif (skipped by the census)
 }
 
 type deadRange struct {
@@ -1511,7 +1512,7 @@ func main() {
 	}
 	out := map[string]interface{}{"repo": repo, "module": w.module, "atoms": w.atoms, "must": must, "ops": w.ops, "notes": w.notes, "nrouter": w.nrouter,
 		"census": w.sites, "census_counts": counts, "default_mux_patterns": w.defaultMux, "default_mux_served": w.defaultMuxServed,
-		"pass_through_source": w.passCache, "open_witness": openWitness}
+		"pass_through_source": w.passCache, "open_witness": openWitness, "hook_files_skipped": w.hookFiles}
 	js, _ := json.MarshalIndent(out, "", " ")
 	if err := os.WriteFile(os.Args[3], js, 0644); err != nil {
 		fmt.Fprintln(os.Stderr, err)
